@@ -11,7 +11,7 @@ import tempfile
 import zlib
 
 from engine import REPO, gen_states, pool_map
-from readers import read_text, run_cli, split_gfa, write_text, workdir
+from readers import read_text, run_cli, split_gfa, write_text, workdir, lines_of
 
 
 def seq_of(nid, ln):
@@ -39,7 +39,7 @@ def build_lines(st, decorate, rnd):
                 a, ao, b, bo = b, "-" if bo == "+" else "+", a, "-" if ao == "+" else "+"
             if k % 4 == 2:
                 ov = "3M"
-            tags = [[], ["ll:i:5"], ["lz:Z:x:y", "ll:i:7"], ["lc:Z:inverted allele", "lb:B:i,1,-2"]][k % 4]
+            tags = [[], ["ll:i:5"], ["lz:Z:x:y", "ll:i:7"], ["lc:Z:inverted allele", "lb:B:i,1,-2"], ["nt:Z:alt allele\u2028seen in HG002\x1c\x0b", "ll:i:9"]][k % 5]
         Ls.append("\t".join(["L", a, ao, b, bo, ov] + tags))
     if decorate:
         other = ["H\tVN:Z:1.0", "# a comment line", "", "P\tp1\ts8+,s9+\t*", "W\tsample\t0\tchrA\t0\t10\t>s8>s9"]
@@ -55,7 +55,7 @@ def parse_out(paths_gfa, paths_csv):
     for p in paths_gfa:
         seen_l = False
         S, L, O = split_gfa(read_text(p))
-        text_lines = read_text(p).splitlines()
+        text_lines = lines_of(read_text(p))
         for line in text_lines:
             if line.startswith("L"):
                 seen_l = True
@@ -73,7 +73,7 @@ def parse_out(paths_gfa, paths_csv):
             links.append({"a": l["a"], "ao": l["ao"], "b": l["b"], "bo": l["bo"], "ov": l["ov"], "tags": l["tags"]})
     csv = []
     for p in paths_csv:
-        for line in open(p).read().splitlines():
+        for line in lines_of(open(p).read()):
             f = line.split(",")
             if f[0] == "Name":
                 continue
@@ -84,7 +84,7 @@ def parse_out(paths_gfa, paths_csv):
     return segs, links, tags, seg_order, s_before_l, csv
 
 
-def one_run(d, tag, lines, order, by_chrom, withseq, gz, variant, hashseed=None, pair=0):
+def one_run(d, tag, lines, order, by_chrom, withseq, gz, variant, hashseed=None, pair=0, no_order_arg=False):
     gfa = os.path.join(d, f"{tag}.gfa" + (".gz" if gz else ""))
     write_text(gfa, "\n".join(lines) + "\n", "gz" if gz else "plain")
     out = os.path.join(d, f"out_{tag}")
@@ -100,7 +100,7 @@ def one_run(d, tag, lines, order, by_chrom, withseq, gz, variant, hashseed=None,
                 with open(fp, "w") as f:
                     f.write(text)
                 before[fp] = text
-    argv = ["order_gfa", "--chromosome_order", ",".join(order), "--outdir", out] + (["--by-chrom"] if by_chrom else []) + (["--with-sequence"] if withseq else []) + [gfa]
+    argv = ["order_gfa"] + ([] if no_order_arg else ["--chromosome_order", ",".join(order)]) + ["--outdir", out] + (["--by-chrom"] if by_chrom else []) + (["--with-sequence"] if withseq else []) + [gfa]
     if hashseed is None:
         r = run_cli(argv, timeout=120)
         status = r["status"] if r["status"] == "ok" else r["status"] + ":" + r["exc"][:60]
@@ -138,7 +138,12 @@ def run_session(job):
         good = [c["name"] for c in st["chroms"] if not c["bad"]]
         base = other[:1] + S + L + other[1:]
         runs = []
-        if mode == "C06":
+        if mode == "C06" and opts.get("default_order"):
+            sh = base[:]
+            rnd.shuffle(sh)
+            runs.append(one_run(d, "dflt0", base, names, False, False, False, "base", no_order_arg=True))
+            runs.append(one_run(d, "dflt1", sh, names, True, False, False, "perm", no_order_arg=True))
+        elif mode == "C06":
             orders = list(itertools.permutations(names)) if len(names) <= 3 else [names]
             for oi, order in enumerate(orders):
                 order = list(order)
@@ -151,7 +156,7 @@ def run_session(job):
                     # stale tags: feed the output of a run made with another chromosome order back in
                     src = one_run(d, "st0", base, list(reversed(order)), False, True, False, "base")
                     if src["status"] == "ok" and src["out_gfas"]:
-                        stale = read_text(src["out_gfas"][0]).splitlines()
+                        stale = lines_of(read_text(src["out_gfas"][0]))
                         rnd.shuffle(stale)
                         runs.append(one_run(d, "st1", stale, order, True, False, False, "stale"))
                         # tags left by a run on an earlier version of the graph: complete, but not matching this graph
